@@ -67,6 +67,18 @@ func cliExit(r *Run) {
 		w.R = 18 + t.Draw(12, "nvolumes")
 		longGap = true
 		r.Probe("par1-many-volumes")
+		if t.Bool(1, 2, "fill-the-set") {
+			// data files and volumes together fill the 256 places a PAR1
+			// set has (here: 227-238 tiny files)
+			for i := len(w.Files); i+w.R < 256; i++ {
+				f := w.Files[0]
+				f.Name = fmt.Sprintf("m%03d.dat", i)
+				f.Data = expandContent(ckRandom, t.Draw64(0, "fill-seed"), 1+t.Draw(9, "fill-len"), 4)
+				w.Files = append(w.Files, f)
+				w.Disk.Put(w.Path(i), f.Data)
+			}
+			r.Probe("par1-256-places-filled")
+		}
 	}
 	rw := r.Materialise(w)
 	os.MkdirAll(rw.Real("/elsewhere"), 0755)
